@@ -59,7 +59,10 @@ class Info(DoitCmdBase):
 
         # print reason task is not up-to-date
         retcode = 0
-        if not hide_status:
+        if not hide_status and self.dep_manager.status_is_ignore(task):
+            # same precedence as `run` and `list --status`
+            self.outstream.write('\n{:11s}: {}\n'.format('status', 'ignore'))
+        elif not hide_status:
             status = self.dep_manager.get_status(task, tasks, get_log=True)
             self.outstream.write('\n{:11s}: {}\n'
                                  .format('status', status.status))
